@@ -2044,6 +2044,12 @@ def e2e_srs_extent(ctx, T):
                         tags = Image.open(io.BytesIO(resp.body)).tag_v2
                         tie, scale = tuple(tags[33922]), tuple(tags[33550])
                     except Exception as e:  # noqa
+                        meets = bbox[0] < ext[2] and bbox[2] > ext[0] and bbox[1] < ext[3] and bbox[3] > ext[1]
+                        if not meets:
+                            # WMSServer.map answers a request outside the SRS extent with a blank image built before any
+                            # georeference is attached: nothing is shown, so no pixel is misplaced (observation, not C01)
+                            ctx.count('geotiff:blank_answer_outside_extent_has_no_tags')
+                            continue
                         ctx.fail('geotiff:no-tags', 'GeoTIFF answer without georeference tags: %r' % (e,), rep)
                         continue
                     rep['geotiff'] = {'tiepoint': tie, 'pixelscale': scale}
